@@ -208,6 +208,17 @@ def pydanticField (acc : Acc) (st : CState) (name : Name) (ann : Ann) (t : Tenso
   | .error r => .reject r
   | .ok () => runEntries acc st [{ argIndex := 0, name, tensor := t, ann }]
 
+/-- `dltyped_namedtuple()(cls)` / `dltyped_dataclass()(cls)` for an enabled decorator applied to a NamedTuple / dataclass: every
+    field hint is translated (an unsupported one is a TypeError at decoration); a NamedTuple without any hinted field is handed back
+    untouched, a dataclass always gets the validating `__init__` -/
+inductive ClassKind | namedTuple | dataclass
+  deriving DecidableEq, Repr
+
+def decorateClass (k : ClassKind) (fields : List (Name × Hint)) : Except DecorErr (Option (List (Name × HintAnns))) :=
+  match hintsOf fields with
+  | .error e => .error e
+  | .ok fs => if k = .namedTuple && fs.isEmpty then .ok none else .ok (some fs)
+
 /-- class-definition time of a pydantic model (`__get_pydantic_core_schema__`): a numpy array type that declares scalar types
     (`np.ndarray[Any, np.dtype[...]]`, `npt.NDArray[...]`) is refused when one of them is not accepted by the annotation's class -/
 def classDefRejects (acc : Acc) (cls : Nat) (declared : List DT) : Bool :=
